@@ -15,7 +15,8 @@ Conventions of the translation
     rebuild the value of the name or attribute they change (value semantics; aliasing of mutable values is not
     tracked), `a = b = e` assigns left to right, `a, b = e` unpacks a pair;
   * if/elif/else: the names assigned in a branch and read afterwards are joined; a name a path leaves unassigned is
-    OUnbound there and reading it goes through py_bound;
+    OUnbound there and reading it goes through py_bound; joined and loop-carried names are listed in the order of their
+    first occurrence in the construct (not by name);
   * `for x in range(..)/<value>` is fold_leftM over the loop-carried names (assigned in the body and read after the
     loop or at the start of the next pass); `continue` ends the pass; `break`/`return` in a for loop are rejected;
   * `while True:` / `while <cond>:` is py_while over the loop-carried names with `break`/`continue`; its fuel is
@@ -415,6 +416,33 @@ def loads(nodes):
         if node is not None:
             walk(node)
     return out
+
+
+def first_seen(stmts):
+    """name -> position of its first occurrence in the statements, in evaluation order (value before target);
+    the loop-carried and joined names are listed in this order, so that renaming a local changes nothing"""
+    seen = {}
+
+    def walk(n):
+        if isinstance(n, ast.Name):
+            if n.id not in PRIMS:
+                seen.setdefault(n.id, len(seen))
+            return
+        if isinstance(n, ast.Assign):
+            walk(n.value)
+            for t in n.targets:
+                walk(t)
+            return
+        for c in ast.iter_child_nodes(n):
+            walk(c)
+    for st in stmts:
+        walk(st)
+    return seen
+
+
+def in_order(names, stmts):
+    seen = first_seen(stmts)
+    return sorted(names, key=lambda x: (seen.get(x, len(seen)), x))
 
 
 def targets_of(st):
@@ -898,7 +926,7 @@ class Tr:
         for n in ast.walk(st):
             if isinstance(n, (ast.Break, ast.Continue)) and self.innermost_loop(st, n) is None:
                 self.err("break/continue inside an if that is followed by further statements of the same pass", n)
-        jvars = sorted(assigned([st]) & live_after)
+        jvars = in_order(assigned([st]) & live_after, [st])
         # a joined name is possibly unbound afterwards when some path leaves it without a value
         ends = []
         self.S(st.body, env, lambda e: (ends.append(e), "Ok tt")[1], inner)
@@ -914,7 +942,7 @@ class Tr:
 
     def loop_state(self, body, head_loads, targets, env, live_after, st):
         used_first, _ = ube(body, targets)
-        state = sorted((assigned(body) - targets) & (live_after | used_first | head_loads))
+        state = in_order((assigned(body) - targets) & (live_after | used_first | head_loads), body)
         # names assigned in the body that are not carried must not be read before their assignment in a pass
         for s in (assigned(body) - targets) - set(state):
             if s in used_first:
